@@ -18,6 +18,7 @@ import (
 	"os"
 	"path/filepath"
 	"regexp"
+	"strings"
 	"sync"
 	"testing"
 	"time"
@@ -144,6 +145,8 @@ type fileBackend struct {
 	stop chan struct{}
 	c2s  *bpipe
 	s2c  *bpipe
+	// closeFails: the server answers CLOSE with a failure status
+	closeFails bool
 }
 
 func newFileBackend(t testing.TB, tr *tracer, o fileOpts, content []byte, bad []int, seed int64) *fileBackend {
@@ -259,6 +262,19 @@ func runFileScenario(t testing.TB, tr *tracer, o fileOpts, sc fileScenario, seed
 	tr.reset(hdr)
 	b := newFileBackend(t, tr, o, content, sc.Bad, seed)
 	defer b.close()
+	// in one scenario out of four the server answers CLOSE with a failure status (having released the handle)
+	if seed%4 == 1 {
+		switch {
+		case b.pr != nil:
+			b.pr.mu.Lock()
+			b.pr.closeStatus = 4
+			b.pr.mu.Unlock()
+			b.closeFails = true
+		case b.sess != nil && b.sess.v != nil:
+			b.sess.v.closeErrEvery = 1
+			b.closeFails = true
+		}
+	}
 	f, err := b.cl.OpenFile(b.path(), os.O_RDWR)
 	if err != nil {
 		t.Fatalf("open: %v", err)
@@ -270,7 +286,7 @@ func runFileScenario(t testing.TB, tr *tracer, o fileOpts, sc fileScenario, seed
 	tr.emit("FInit", kv{"content": ints(content), "bad": bad})
 	wsalt := 0
 	for _, c := range sc.Calls {
-		ev := kv{"api": c.API, "off": c.Off, "len": c.Len, "whence": c.Whence}
+		ev := kv{"api": c.API, "off": c.Off, "len": c.Len, "whence": c.Whence, "srvfail": b.closeFails}
 		var data []byte
 		switch c.API {
 		case "WriteAt", "Write", "ReadFrom":
@@ -355,7 +371,11 @@ func runFileScenario(t testing.TB, tr *tracer, o fileOpts, sc fileScenario, seed
 		if delivered == nil {
 			delivered = []byte{}
 		}
-		tr.emit("FRet", kv{"n": n, "err": errClass(cerr), "data": ints(delivered), "pos": pos, "after": ints(b.content()), "consumed": consumed})
+		ec := errClass(cerr)
+		if c.API == "Close" && strings.HasPrefix(ec, "other:") {
+			ec = "fail"
+		}
+		tr.emit("FRet", kv{"n": n, "err": ec, "data": ints(delivered), "pos": pos, "after": ints(b.content()), "consumed": consumed})
 	}
 }
 
@@ -502,6 +522,9 @@ func TestVerif_CloseRace(t *testing.T) {
 		pr := newPeer(t, tr)
 		content := posData(64, byte(i))
 		pr.setFile(peerHandle("/f"), content)
+		if i%4 == 3 {
+			pr.closeStatus = 4 // the CLOSE is answered with a failure status: the File is closed all the same
+		}
 		// a slow transport: senders queue up on the connection's write mutex, which stretches the window between a
 		// method's check of the handle and its request reaching the wire
 		pr.c2s.afterWrite = func(b []byte) { time.Sleep(20 * time.Microsecond) }
@@ -554,15 +577,19 @@ func TestVerif_CloseRace(t *testing.T) {
 			}(g)
 		}
 		time.Sleep(time.Duration(r.Intn(400)) * time.Microsecond)
-		tr.emit("FCall", kv{"api": "Close", "off": 0, "len": 0, "whence": 0})
+		tr.emit("FCall", kv{"api": "Close", "off": 0, "len": 0, "whence": 0, "srvfail": i%4 == 3})
 		cerr := f.Close()
 		close(stop)
 		wg.Wait()
-		tr.emit("FRet", kv{"n": 0, "err": errClass(cerr), "data": []int{}, "pos": -1, "after": ints(pr.fileCopy(peerHandle("/f"))), "consumed": 0})
+		cec := errClass(cerr)
+		if strings.HasPrefix(cec, "other:") {
+			cec = "fail"
+		}
+		tr.emit("FRet", kv{"n": 0, "err": cec, "data": []int{}, "pos": -1, "after": ints(pr.fileCopy(peerHandle("/f"))), "consumed": 0})
 		// every method on the closed File
 		for _, api := range []string{"ReadAt", "Read", "WriteTo", "WriteAt", "Write", "ReadFrom", "Seek", "Stat", "Truncate", "Close"} {
 			data := []byte{1, 2, 3}
-			tr.emit("FCall", kv{"api": api, "off": 0, "len": 3, "whence": 0, "data": ints(data), "srckind": "len"})
+			tr.emit("FCall", kv{"api": api, "off": 0, "len": 3, "whence": 0, "data": ints(data), "srckind": "len", "srvfail": i%4 == 3})
 			n := 0
 			var e error
 			switch api {
